@@ -73,6 +73,49 @@ if not bad and "one-result-per-matching-entity" in ob:
     if len(res) != 1:
         bad = dict(input={"level": "PATIENT", "PatientID key": "AXB1", "stored": "one patient AXB1 with two instances"},
                    observed=f"{len(res)} results (one per stored instance)", expected="1 result (one per matching patient)")
+def over_the_wire(q):
+    """the identifier as the SCP sees it: encoded and decoded again (zero-length values come back as '' / [] with pydicom 3)"""
+    from io import BytesIO
+    from pynetdicom.dsutils import encode, decode
+    return decode(BytesIO(encode(q, True, True)), True, True)
+
+
+if not bad and ("build_query" in ob or not ob):
+    # dispatch: zero-length keys (universal matching), several UIDs (list of UID matching), wild cards on every text key
+    q = Dataset()
+    q.QueryRetrieveLevel = "PATIENT"
+    q.PatientID, q.PatientName = "", ""
+    got = sorted({m.patient_id for m in db.search(PR_FIND, over_the_wire(q), session)})
+    want = sorted({d.PatientID for d in STORE})
+    if got != want:
+        bad = dict(input={"level": "PATIENT", "keys": "PatientID and PatientName zero-length, identifier decoded from its wire form",
+                          "decoded values": [repr(e.value) for e in over_the_wire(q)]}, observed=got, expected=want)
+    if not bad:
+        q = Dataset()
+        q.QueryRetrieveLevel = "STUDY"
+        q.PatientID = ""
+        q.StudyInstanceUID = ["1.1", "1.3"]
+        try:
+            got = sorted({m.study_instance_uid for m in db.search(PR_FIND, over_the_wire(q), session)})
+        except Exception as e:
+            got = f"{type(e).__name__}: {str(e)[:120]}"
+        if got != ["1.1", "1.3"]:
+            bad = dict(input={"level": "STUDY", "StudyInstanceUID": ["1.1", "1.3"]}, observed=got, expected=["1.1", "1.3"])
+    if not bad:
+        mods = [("CT", "1.1.1.1"), ("MR", "1.2.1.1"), ("CR", "1.3.1.1")]
+        s2 = session_with([instance(f"P{i}", "X^Y", f"2.{i}", f"2.{i}.1", f"2.{i}.1.1") for i in range(3)])
+        for inst, (m, _u) in zip(s2.query(db.Instance).order_by(db.Instance.patient_id).all(), mods):
+            inst.modality = m
+        s2.commit()
+        for key in ("C*", "?R", "*"):
+            q = Dataset()
+            q.QueryRetrieveLevel = "SERIES"
+            q.PatientID, q.StudyInstanceUID, q.Modality = None, None, key
+            got = sorted(m.modality for m in db.search(PR_FIND, q, s2))
+            want = sorted(m for m, _u in mods if dicom_wild(key, m))
+            if got != want:
+                bad = dict(input={"level": "SERIES", "Modality key": key, "stored modalities": [m for m, _u in mods]}, observed=got, expected=want)
+                break
 if bad:
     done(True, **bad)
 done(False, note="the real search returned exactly what PS3.4 matching selects for the tried keys")
